@@ -285,6 +285,38 @@ impl Add<&TaggingEnvironment> for &TaggingEnvironment {
     }
 }
 
+impl AsnTag {
+    /// Resolves the tag's tagging mode against the tagging environment of its module.
+    fn in_tagging_environment(&self, environment: &TaggingEnvironment) -> AsnTag {
+        AsnTag {
+            environment: environment + &self.environment,
+            tag_class: self.tag_class,
+            id: self.id,
+        }
+    }
+}
+
+impl ASN1Type {
+    /// Applies the module's tagging environment to the tags of all members,
+    /// including the members of anonymous nested types.
+    fn apply_tagging_environment(&mut self, env: &TaggingEnvironment) {
+        match self {
+            ASN1Type::Sequence(s) | ASN1Type::Set(s) => s.members.iter_mut().for_each(|m| {
+                m.tag = m.tag.as_ref().map(|t| t.in_tagging_environment(env));
+                m.ty.apply_tagging_environment(env);
+            }),
+            ASN1Type::Choice(c) => c.options.iter_mut().for_each(|o| {
+                o.tag = o.tag.as_ref().map(|t| t.in_tagging_environment(env));
+                o.ty.apply_tagging_environment(env);
+            }),
+            ASN1Type::SequenceOf(s) | ASN1Type::SetOf(s) => {
+                s.element_type.apply_tagging_environment(env)
+            }
+            _ => (),
+        }
+    }
+}
+
 /// Represents the extensibility environment as specified in
 /// Rec. ITU-T X.680 (02/2021) § 13.4
 #[cfg_attr(test, derive(EnumDebug))]
@@ -633,28 +665,8 @@ impl ToplevelDefinition {
 
     pub(crate) fn apply_tagging_environment(&mut self, environment: &TaggingEnvironment) {
         if let (env, ToplevelDefinition::Type(ty)) = (environment, self) {
-            ty.tag = ty.tag.as_ref().map(|t| AsnTag {
-                environment: env + &t.environment,
-                tag_class: t.tag_class,
-                id: t.id,
-            });
-            match &mut ty.ty {
-                ASN1Type::Sequence(s) | ASN1Type::Set(s) => s.members.iter_mut().for_each(|m| {
-                    m.tag = m.tag.as_ref().map(|t| AsnTag {
-                        environment: env + &t.environment,
-                        tag_class: t.tag_class,
-                        id: t.id,
-                    });
-                }),
-                ASN1Type::Choice(c) => c.options.iter_mut().for_each(|o| {
-                    o.tag = o.tag.as_ref().map(|t| AsnTag {
-                        environment: env + &t.environment,
-                        tag_class: t.tag_class,
-                        id: t.id,
-                    });
-                }),
-                _ => (),
-            }
+            ty.tag = ty.tag.as_ref().map(|t| t.in_tagging_environment(env));
+            ty.ty.apply_tagging_environment(env);
         }
     }
 
